@@ -510,9 +510,9 @@ pub fn property() -> Property {
         plan: |tier| match tier {
             Tier::Quick => vec![
                 Step::Enumerate { kind: "gap_triples", count: 2 * triples_up_to(40) },
-                Step::Pbt { kind: "gap_newcomer", cases: 600, max_len: 16 },
-                Step::Pbt { kind: "gap_reclaim", cases: 600, max_len: 16 },
-                Step::Pbt { kind: "status_replies", cases: 3000, max_len: 260 },
+                Step::Pbt { kind: "gap_newcomer", cases: 3000, max_len: 16 },
+                Step::Pbt { kind: "gap_reclaim", cases: 3000, max_len: 16 },
+                Step::Pbt { kind: "status_replies", cases: 12_000, max_len: 260 },
             ],
             Tier::Thorough => vec![
                 Step::Enumerate { kind: "gap_triples", count: 2 * triples_up_to(126) },
